@@ -165,6 +165,29 @@ def fixed_families():
                "packages": {MOD + "/w": {"interfaces": ifs}}}
         files[".mockery.yml"] = json.dumps(cfg, indent=1)
         fams.append({"kind": "family", "i": -1 - len(fams), "files": files, "placement": tag})
+    # several output files share one custom template and its schema and differ in require-template-schema-exists; one of the files that waive the
+    # schema carries data the schema forbids, one that requires it carries data the schema rejects: which files are written and the exit status
+    # must not depend on which file is rendered first
+    tmpl = "// custom\n\npackage {{.PkgName}}\n\n{{range .Interfaces}}// mock of {{.Name}} greeting={{index $.TemplateData \"greeting\"}}\ntype {{.StructName}} struct{}\n{{end}}"
+    schema = {"$schema": "http://json-schema.org/draft-07/schema#", "type": "object", "additionalProperties": False, "properties": {"greeting": {"type": "string"}}}
+    for tag, strict_td in (("shared-custom-template-different-schema-requirement-all-valid", {"greeting": "hi"}),
+                           ("shared-custom-template-different-schema-requirement-one-rejected", {"greeting": 42})):
+        files = {"tmpl/custom.templ": tmpl, "tmpl/custom.templ.schema.json": json.dumps(schema)}
+        pk = {}
+        for k in range(5):
+            files["r%d/a.go" % k] = "package r%d\n\ntype R%d interface{ M(x int) error }\n" % (k, k)
+            c = {"all": True}
+            if k in (0, 2, 3):
+                c.update({"require-template-schema-exists": False, "template-data": {"greeting": "legacy", "forbidden-by-schema": k}})
+            elif k == 4:
+                c.update({"template-data": strict_td})
+            else:
+                c.update({"template-data": {"greeting": "hello"}})
+            pk[MOD + "/r%d" % k] = {"config": c}
+        cfg = {"force-file-write": True, "template": "file://tmpl/custom.templ", "formatter": "noop", "filename": "custom_{{.InterfaceName}}.go", "dir": "{{.InterfaceDir}}/gen",
+               "pkgname": "gen", "packages": pk}
+        files[".mockery.yml"] = json.dumps(cfg, indent=1)
+        fams.append({"kind": "family", "i": -1 - len(fams), "files": files, "placement": tag})
     return fams
 
 
